@@ -18,6 +18,19 @@ CLAIMED = {
         "property-based testing (Hypothesis) against a content->weight reference model",
         "3/C11",
     ),
+    "C04": (
+        "Generated tied/partial profiles x score vectors (int, rational, dyadic and arbitrary floats; "
+        "short/equal/long) are scored by an independent exact-rational implementation of the definition and "
+        "compared with score_profile_from_rankings / first_place_votes / borda_scores / mentions (exact "
+        "equality, per-ballot point conservation); Plurality/SNTV/Borda outcomes are judged by validity "
+        "predicates (m winners, no loser outscoring a winner, descending order, equal scores tied unless a "
+        "recorded tiebreak separated them, ValueError iff an unbroken boundary tie).  Thorough enumerates every "
+        "tied-position shape over <= 4 candidates.  Held on everything generated.",
+        "Trusts the harness's reference scorer (vk/ref/scoring.py) and Fraction arithmetic; arbitrary float "
+        "vectors compared to 1e-9 relative, election-level checks restricted to int/rational/dyadic vectors.",
+        "property-based testing (Hypothesis) against an exact-rational reference scorer + bounded-exhaustive tie shapes",
+        "3/C04",
+    ),
 }
 
 PENDING_REASON = "check not built yet in this session; the design (DESIGN.md section 3) claims it and it will be registered once it is quiet on the unchanged tree and catches its mutants"
